@@ -37,7 +37,7 @@ OBLIGATIONS = [
     "C11_reseed", "C11_reseed_call", "C11_settings_copied", "C11_settings_alias_refuted",
 ]
 
-SCRATCH = "/tmp/scratch/c11"
+SCRATCH = f"/tmp/scratch/c11-check-{os.getpid()}"
 F4_SIG = "logging:no-path:attribute-error-path_output"
 PERIODS = ("print_periodicity", "save_periodicity", "plot_periodicity", "plot_patient_periodicity")
 
